@@ -112,6 +112,27 @@ def run(ctx, rep):
     n_sites = _operands.run(F, rep, "C06.operand-order", ffns, "folder")
     rep.floor("C06.operand-order sites", n_sites, 30)
 
+    # ---- the folder's entry point hands every literal pair to the operator implementations ------------------------------------
+    # (the kind / failure tables above are read from `impl ops for &Number`; a shortcut in Expr::try_constexpr_eval that answers without them
+    #  -- "x + 0 is x" -- would bypass the tables: byte + int(0) must still be an int)
+    ent = [f for f in F.all_fns() if f.path.endswith("::try_constexpr_eval") and "math_expr::Expr" in f.path and "CompileTimeEvaluate" in f.path]
+    if len(ent) != 1:
+        raise AnchorMissing("impl CompileTimeEvaluate for Expr")
+    ent = ent[0]
+    opcalls = {c.bb for c in ent.calls() if "core::ops::" in c.callee() and "number::Number" in c.callee()}
+    rep.floor("C06.fold-entry operator calls in try_constexpr_eval", len(opcalls), 10)
+    n_num = 0
+    for bi, si, dst, rv, s in ent.assigns():
+        if "agg" in rv and rv["agg"].get("adt", "").endswith("value::Value") and rv["agg"].get("v") == "Number":
+            n_num += 1
+            l = op_local(rv["ops"][0])
+            src = rules.origin_calls(ent, l, transparent=rules.TRANSPARENT | {rules.TRY_BRANCH}) if l is not None else []
+            okn = bool(src) and all(c.bb in opcalls for c in src)
+            rep.ob("C06.fold-entry", "a folded binary expression is the result of the operator implementation on both literals (no shortcut past the tables)",
+                   "ok" if okn else "violated", "the folded number derives from %s" % [mir.short(c.callee()) for c in src], s.get("us") or s.get("sp"), fn=ent.path,
+                   key="C06.fold-entry|number#%d" % (n_num - 1))
+    rep.floor("C06.fold-entry folded numbers built in try_constexpr_eval", n_num, 1)
+
     # ---- same primitive on both sides -----------------------------------------------------------------------
     from props import _primsem
     n_prim = 0
